@@ -141,6 +141,8 @@ package keygen
 // threshold and of the session's constant-term shape, 32-byte chain keys, non-nil shares) nothing panics -- in
 // particular polynomial.Sum cannot fail, so the explicit panic(err) is unreachable.
 //@ func (*round3).Finalize
+// (C04, C05) the round handed back carries the SAME session helper (so its FinalRoundNumber(), SelfID(), ... are those of this round)
+//@   ensures[C04,C05] result1 == nil ==> ((typeis(result0, *round.Output) ==> result0.(*round.Output).Helper == old(r.Helper)) && (typeis(result0, *round.Abort) ==> result0.(*round.Abort).Helper == old(r.Helper)))
 // (C04, C05) the round handed to the handler is one the session announced: its number is within the final round
 // number, so the handler holds a queue for it and waits for every party before finalizing it
 //@   ensures[C04,C05] result1 == nil ==> result0.Number() <= old(r.Helper.info.FinalRoundNumber)
@@ -166,6 +168,8 @@ package keygen
 //@   ensures typeis(result0, *round.Output) ==> result0.(*round.Output).Result != nil
 
 //@ func (*round2).Finalize
+// (C04, C05) the round handed back carries the SAME session helper (so its FinalRoundNumber(), SelfID(), ... are those of this round)
+//@   ensures[C04,C05] result1 == nil ==> ((typeis(result0, *round3) ==> result0.(*round3).Helper == old(r.Helper)) && (typeis(result0, *round.Output) ==> result0.(*round.Output).Helper == old(r.Helper)) && (typeis(result0, *round.Abort) ==> result0.(*round.Abort).Helper == old(r.Helper)))
 // (C04, C05) the round handed to the handler is one the session announced: its number is within the final round
 // number, so the handler holds a queue for it and waits for every party before finalizing it
 //@   ensures[C04,C05] result1 == nil ==> result0.Number() <= old(r.Helper.info.FinalRoundNumber)
@@ -182,6 +186,8 @@ package keygen
 //@   ensures typeis(result0, *round.Abort) ==> result0.(*round.Abort).Err != nil
 //@   ensures typeis(result0, *round.Output) ==> result0.(*round.Output).Result != nil
 //@ func (*round1).Finalize
+// (C04, C05) the round handed back carries the SAME session helper (so its FinalRoundNumber(), SelfID(), ... are those of this round)
+//@   ensures[C04,C05] result1 == nil ==> ((typeis(result0, *round2) ==> result0.(*round2).Helper == old(r.Helper)) && (typeis(result0, *round.Output) ==> result0.(*round.Output).Helper == old(r.Helper)) && (typeis(result0, *round.Abort) ==> result0.(*round.Abort).Helper == old(r.Helper)))
 // (C04, C05) the round handed to the handler is one the session announced: its number is within the final round
 // number, so the handler holds a queue for it and waits for every party before finalizing it
 //@   ensures[C04,C05] result1 == nil ==> result0.Number() <= old(r.Helper.info.FinalRoundNumber)
